@@ -25,11 +25,12 @@ type SpecDB struct {
 	ghosts       map[string]*Ghost
 	immutable    map[string]bool // type keys ("pkg/path.Type")
 	pkgInvs      map[string][]*Clause
+	private      map[string]bool
 }
 
 func newSpecDB() *SpecDB {
 	return &SpecDB{pkgs: map[string]*PkgContracts{}, byName: map[string]*FuncContract{}, eff: &effectsCache{done: map[*ssa.Function]*EffectSet{}},
-		inlineExtern: map[string]bool{}, chanInv: map[string][]*Clause{}, ghosts: map[string]*Ghost{}, immutable: map[string]bool{}, pkgInvs: map[string][]*Clause{}}
+		inlineExtern: map[string]bool{}, chanInv: map[string][]*Clause{}, ghosts: map[string]*Ghost{}, immutable: map[string]bool{}, pkgInvs: map[string][]*Clause{}, private: map[string]bool{}}
 }
 
 func readSpecLines(path string) ([]string, error) {
@@ -121,6 +122,19 @@ func (db *SpecDB) isImmutableHeap(heap string) bool {
 	return false
 }
 
+// isPrivateHeap reports whether a heap holds fields of a struct type declared
+// "private": only functions of its own package write them, so calls whose
+// callee is unknown (interfaces, function values, other packages) leave them
+// unchanged.
+func (db *SpecDB) isPrivateHeap(heap string) bool {
+	for t := range db.private {
+		if strings.HasPrefix(heap, "|H:"+t+".") {
+			return true
+		}
+	}
+	return false
+}
+
 func (db *SpecDB) ghost(name string) *Ghost {
 	return db.ghosts[name]
 }
@@ -148,6 +162,13 @@ func (db *SpecDB) add(key string, pc *PkgContracts) {
 		db.ghosts[g.Name] = g
 	}
 	db.pkgInvs[key] = append(db.pkgInvs[key], pc.PkgInvs...)
+	for _, t := range pc.Private {
+		if strings.Contains(t, "/") || key == "" {
+			db.private[t] = true
+		} else {
+			db.private[key+"."+t] = true
+		}
+	}
 	for _, t := range pc.Immutable {
 		if strings.Contains(t, "/") || key == "" {
 			db.immutable[t] = true
